@@ -53,9 +53,13 @@ def run(ctx):
         "mismatches_not_reproduced_on_rerun": R["mismatches_not_reproduced"]}
     for s in (R["samples"] or [])[:4]:
         ctx.sample({"enumerated_case": s})
+    soft = []
     for f in R["findings"] or []:
-        ctx.violation("%s (seen %d times); GET %s" % (f["what"], f["count"], f["path"]),
-                      ctx.save_replay(f["key"], f), key=f["key"])
+        if f["kind"] in ("crash", "view"):
+            ctx.violation("%s (seen %d times); GET %s" % (f["what"], f["count"], f["path"]),
+                          ctx.save_replay(f["key"], f), key=f["key"])
+        else:   # depends on a deadline, or the child went away without a Go panic: never a violation by itself
+            soft.append(f["key"] + ": " + f["what"][:300])
 
     # 3. binding B: seeded random clusters (more topics, arbitrary counters), observed views re-computed by TLC
     trace = os.path.join(ctx.scratch, "adminview.ndjson")
@@ -72,11 +76,19 @@ def run(ctx):
     for s in (T["samples"] or [])[:2]:
         ctx.sample({"random_cluster": s})
     for f in T.get("findings") or []:
-        ctx.violation("%s (random cluster, seen %d times); GET %s" % (f["what"], f["count"], f["path"]),
-                      ctx.save_replay("random-" + f["key"], f), key=f["key"])
+        if f["kind"] == "crash":
+            ctx.violation("%s (random cluster, seen %d times); GET %s" % (f["what"], f["count"], f["path"]),
+                          ctx.save_replay("random-" + f["key"], f), key=f["key"])
+        else:
+            soft.append(f["key"] + ": " + f["what"][:300])
     if T["clusters"] > 0:
         ctx.validate_trace("AdminViewTrace", "AdminViewTrace.cfg", trace, T["clusters"], "admin-views", timeout=3000,
                            key="view-trace")
+
+    if soft and not ctx.violations:
+        raise Inconclusive("observations that depend on a deadline or on the child process being killed: " + "; ".join(soft[:5]))
+    if soft:
+        ctx.notes["deadline_dependent_observations"] = soft[:10]
 
     ctx.cov["rule"] = ("evaluations = /api views fetched from a real nsqadmin process (every TLC-enumerated cluster x every "
                        "view, plus seeded random clusters); distinct_nontrivial = distinct (cluster, view) pairs whose whole "
